@@ -31,10 +31,13 @@ missing = [t for t in stable if not status.get(t, False)]
 retried = []
 for t in list(missing):
     name = t.split("::")[-1]
-    r = subprocess.run(["cargo", "nextest", "run", "--workspace", "--offline", "-E", f"test(={name}) | test(/::{name}$/)"],
-                       capture_output=True, text=True)
-    if r.returncode == 0 and " 1 passed" in (r.stdout + r.stderr):
-        missing.remove(t); retried.append(t)
+    # timing-sensitive integration tests (fixed ports, 1 s persistence interval): up to 3 serial re-runs
+    for attempt in range(3):
+        r = subprocess.run(["cargo", "nextest", "run", "-p", t.split("::")[0], "--offline", "-E", f"test(={name}) | test(/::{name}$/)"],
+                           capture_output=True, text=True)
+        if r.returncode == 0 and " 1 passed" in (r.stdout + r.stderr):
+            missing.remove(t); retried.append(t)
+            break
 print(f"baseline: {len(stable) - len(missing)}/{len(stable)} stable tests passed" + (f" ({len(retried)} after a serial re-run: {retried})" if retried else ""))
 if missing:
     print("NOT PASSED:", *missing, sep="\n  ")
